@@ -748,7 +748,11 @@ class ProcProxy:
                 inbuf = open(self.stdin, "rb", -1)
             else:
                 inbuf = self.stdin
-            stdin = io.TextIOWrapper(inbuf, encoding=enc, errors=err)
+            if hasattr(inbuf, "encoding"):
+                # ``< file`` is opened in text mode: use it as it is
+                stdin = inbuf
+            else:
+                stdin = io.TextIOWrapper(inbuf, encoding=enc, errors=err)
             if isinstance(self.stdin, int):
                 owned_handles.append(stdin)
         stdout = self._pick_buf(self.stdout, sys.stdout, enc, err)
